@@ -12,6 +12,7 @@ import (
 	"os"
 	"strings"
 	"sync"
+	"time"
 
 	plugin "github.com/hashicorp/go-plugin"
 	grpctest "github.com/hashicorp/go-plugin/test/grpc"
@@ -23,7 +24,8 @@ import (
 type Store interface {
 	Set(v int32) error
 	Get() (int32, error)
-	Callback() error        // plugin calls back into the host over a brokered connection
+	Callback() error
+	RevCallback() error     // host calls the plugin over a connection brokered by the plugin        // plugin calls back into the host over a brokered connection
 	Big(n int) (int, error) // response of n bytes
 	Print(out, err string) error
 }
@@ -78,6 +80,11 @@ func (s *RPCServer) Callback(id uint32, _ *int) error {
 	return nil
 }
 
+func (s *RPCServer) ServeID(id uint32, _ *int) error {
+	go s.Broker.AcceptAndServe(id, pongRPC{})
+	return nil
+}
+
 type pongRPC struct{}
 
 func (pongRPC) Pong(v int, out *int) error { *out = v + 1; return nil }
@@ -109,6 +116,28 @@ func (c *RPCClient) Callback() error {
 	return c.c.Call("Plugin.Callback", id, &r)
 }
 
+func (c *RPCClient) RevCallback() error {
+	id := c.b.NextId()
+	var r int
+	if err := c.c.Call("Plugin.ServeID", id, &r); err != nil {
+		return err
+	}
+	conn, err := c.b.Dial(id)
+	if err != nil {
+		return err
+	}
+	defer conn.Close()
+	rc := rpc.NewClient(conn)
+	defer rc.Close()
+	if err := rc.Call("Plugin.Pong", 1, &r); err != nil {
+		return err
+	}
+	if r != 2 {
+		return fmt.Errorf("bad pong %d", r)
+	}
+	return nil
+}
+
 // ---------------- gRPC (over the repository's test protos: Double = set/get, Bidirectional = callback,
 // PrintKV = big response request, PrintStdio = print)
 
@@ -128,6 +157,14 @@ func (s *GRPCServer) Double(_ context.Context, r *grpctest.TestRequest) (*grpcte
 }
 
 func (s *GRPCServer) PrintKV(_ context.Context, r *grpctest.PrintKVRequest) (*grpctest.PrintKVResponse, error) {
+	if r.Key == "serve" {
+		id := uint32(r.GetValueInt())
+		go s.Broker.AcceptAndServe(id, func(o []grpc.ServerOption) *grpc.Server {
+			sv := grpc.NewServer(o...)
+			grpctest.RegisterPingPongServer(sv, pongGRPC{})
+			return sv
+		})
+	}
 	return &grpctest.PrintKVResponse{}, nil
 }
 
@@ -209,6 +246,28 @@ func (c *GRPCClient) Print(o, e string) error {
 	_, err := c.c.PrintStdio(context.Background(), &grpctest.PrintStdioRequest{Stdout: []byte(o), Stderr: []byte(e)})
 	return err
 }
+func (c *GRPCClient) RevCallback() error {
+	id := c.b.NextId()
+	if _, err := c.c.PrintKV(context.Background(), &grpctest.PrintKVRequest{Key: "serve", Value: &grpctest.PrintKVRequest_ValueInt{ValueInt: int32(id)}}); err != nil {
+		return err
+	}
+	conn, err := c.b.Dial(id)
+	if err != nil {
+		return err
+	}
+	defer conn.Close()
+	ctx, cancel := context.WithTimeout(context.Background(), 20*time.Second)
+	defer cancel()
+	r, err := grpctest.NewPingPongClient(conn).Ping(ctx, &grpctest.PingRequest{})
+	if err != nil {
+		return err
+	}
+	if r.Msg != "pong" {
+		return errors.New("bad pong")
+	}
+	return nil
+}
+
 func (c *GRPCClient) Callback() error {
 	id := c.b.NextId()
 	go c.b.AcceptAndServe(id, func(o []grpc.ServerOption) *grpc.Server {
